@@ -204,12 +204,13 @@ func (c *rlScn) step(st string) {
 			if err != nil {
 				return []interface{}{"r", err}
 			}
+			appGot(s, m)
 			tag := string(m.Body)
 			if len(tag) > 12 {
 				tag = tag[:12]
 			}
 			hl := len(m.Header)
-			m.Free()
+			appFree(s, m)
 			return []interface{}{"r", "ok", "tag", tag, "hl", hl}
 		})
 	case "send":
@@ -221,12 +222,9 @@ func (c *rlScn) step(st string) {
 		c.nrep++
 		tag := fmt.Sprintf("a%d", c.nrep)
 		s.Call(s.Thread(), "send", c.cname(i), []interface{}{"tag", tag}, func() []interface{} {
-			m := mangos.NewMessage(16)
+			m := appNew(s, 16)
 			m.Body = append(m.Body, tag...)
-			err := fn(m)
-			if err != nil {
-				m.Free()
-			}
+			err := appSend(s, m, fn)
 			return []interface{}{"r", err}
 		})
 	case "adv":
@@ -250,6 +248,7 @@ func (c *rlScn) step(st string) {
 
 func runRepLike(t *testing.T, cfg rlCfg, seed int64) sim.Result {
 	return sim.Run(t, 10*time.Second, func(s *sim.S) {
+		defer withLedger(s.Rec)()
 		c := &rlScn{s: s, cfg: cfg, pipes: map[string]*vt.Pipe{}, id2p: map[uint32]string{}, rng: rand.New(rand.NewSource(seed))}
 		s.Net.Decode = rlDecode
 		if cfg.Kind == "rep" {
